@@ -212,7 +212,8 @@ int cp_vbnn_ver(const ec_t r, const bn_t z, const bn_t h, const uint8_t *id,
 		ec_new(t);
 
 		/* calculate c */
-		len = id_len + msg_len + 2 * ec_size_bin(r, 1);
+		/* R and Z are written below: Z is not smaller than R when R = O. */
+		len = id_len + msg_len + 2 * (RLC_FC_BYTES + 1);
 		buf = RLC_ALLOCA(uint8_t, len);
 		if (buf == NULL) {
 			RLC_THROW(ERR_NO_MEMORY);
